@@ -166,6 +166,20 @@ private theorem batchLoop_shape (a : Answers) (pre rounds j : Nat) :
       exact ⟨[], by simp [allUnprepared],
         Or.inr ⟨_, rfl, Or.inl ⟨by simp [stmtAnswers], by simpa using hu⟩⟩⟩
 
+private theorem executeArm_shape (a : Answers) (p0 : Nat) :
+    ∃ us : List Outcome, allUnprepared us ∧
+      ∃ o, (executeArm a p0).outcome = some o ∧
+         (stmtAnswers (executeArm a p0).frames = us ++ [o] ∨ stmtAnswers (executeArm a p0).frames = us) := by
+  simp only [executeArm]
+  split
+  · rename_i hu
+    have hus : allUnprepared [a.stmt 0] := by intro x hx; simp at hx; rw [hx]; exact hu
+    split
+    · exact ⟨[a.stmt 0], hus, _, rfl, Or.inl (by simp [stmtAnswers])⟩
+    · exact ⟨[a.stmt 0], hus, _, rfl, Or.inr (by simp [stmtAnswers])⟩
+    · exact ⟨[a.stmt 0], hus, _, rfl, Or.inr (by simp [stmtAnswers])⟩
+  · exact ⟨[], by simp [allUnprepared], _, rfl, Or.inl (by simp [stmtAnswers])⟩
+
 private theorem attempt_shape (kind : StmtKind) (a : Answers) (rounds : Nat) :
     ∃ us : List Outcome, allUnprepared us ∧
       ((attempt kind a rounds).outcome = none ∧ stmtAnswers (attempt kind a rounds).frames = us ∨
@@ -175,15 +189,17 @@ private theorem attempt_shape (kind : StmtKind) (a : Answers) (rounds : Nat) :
   cases kind with
   | query => exact ⟨[], by simp [allUnprepared], Or.inr ⟨_, rfl, Or.inl (by simp [attempt, stmtAnswers])⟩⟩
   | execute =>
+    obtain ⟨us, h1, o, h2, h3⟩ := executeArm_shape a 0
+    exact ⟨us, h1, Or.inr ⟨o, by simpa [attempt] using h2, by simpa [attempt] using h3⟩⟩
+  | queryValues =>
     simp only [attempt]
     split
-    · rename_i hu
-      have hus : allUnprepared [a.stmt 0] := by intro x hx; simp at hx; rw [hx]; exact hu
-      split
-      · exact ⟨[a.stmt 0], hus, Or.inr ⟨_, rfl, Or.inl (by simp [stmtAnswers])⟩⟩
-      · exact ⟨[a.stmt 0], hus, Or.inr ⟨_, rfl, Or.inr (by simp [stmtAnswers])⟩⟩
-      · exact ⟨[a.stmt 0], hus, Or.inr ⟨_, rfl, Or.inr (by simp [stmtAnswers])⟩⟩
-    · exact ⟨[], by simp [allUnprepared], Or.inr ⟨_, rfl, Or.inl (by simp [stmtAnswers])⟩⟩
+    · exact ⟨[], by simp [allUnprepared], Or.inr ⟨_, rfl, Or.inr (by simp [stmtAnswers])⟩⟩
+    · obtain ⟨us, h1, o, h2, h3⟩ := executeArm_shape a 1
+      refine ⟨us, h1, Or.inr ⟨o, by simpa [AttemptFrames.push] using h2, ?_⟩⟩
+      rcases h3 with h3 | h3
+      · exact Or.inl (by simp [AttemptFrames.push, stmtAnswers_append, stmtAnswers, h3])
+      · exact Or.inr (by simp [AttemptFrames.push, stmtAnswers_append, stmtAnswers, h3])
   | batch pre =>
     simp only [attempt]
     split
@@ -254,7 +270,7 @@ private theorem flatten_allButLast (ls : List (List Outcome))
         rw [List.getElem_append_right hi']
         exact ih' (i - l.length) (by simp only [List.length_append, List.flatten_cons] at h ⊢; omega)
 
-/-- **C06 at frame level.**  For a request that is not marked idempotent — QUERY, EXECUTE or BATCH, any plan, any
+/-- **C06 at frame level.**  For a request that is not marked idempotent — QUERY (with or without values), EXECUTE or BATCH, any plan, any
 answers of the server to every statement and PREPARE frame, any number of BATCH re-prepare rounds, each of the
 three policies — a statement frame is put on the wire again only after the previous statement frame was answered
 with something that proves it was not applied: unavailable, bootstrapping, no free stream id, read timeout — or
@@ -288,11 +304,18 @@ theorem nonidempotent_frames_resent_only_after_proof (pol : Policy) (cl0 : Consi
 (the BATCH `prepare_batch` PREPAREs aside), and its answer is the attempt's outcome. -/
 theorem one_frame_per_attempt_without_unprepared (kind : StmtKind) (a : Answers) (rounds : Nat)
     (hr : 0 < rounds) (hu : isUnprepared (a.stmt 0) = false)
-    (hp : ∀ pre, kind = .batch pre → (prepareBatch a pre 0).2 = none) :
+    (hp : ∀ pre, kind = .batch pre → (prepareBatch a pre 0).2 = none)
+    (hq : kind = .queryValues → ∀ e, a.prep 0 ≠ .err e) :
     stmtAnswers (attempt kind a rounds).frames = [a.stmt 0] ∧ (attempt kind a rounds).outcome = some (a.stmt 0) := by
   cases kind with
   | query => simp [attempt, stmtAnswers]
-  | execute => simp [attempt, hu, stmtAnswers]
+  | execute => simp [attempt, executeArm, hu, stmtAnswers]
+  | queryValues =>
+    have := hq rfl
+    cases hpq : a.prep 0 with
+    | err e => rw [hpq] at this; simp at this
+    | ok => simp [attempt, hpq, executeArm, hu, AttemptFrames.push, stmtAnswers]
+    | idChanged => simp [attempt, hpq, executeArm, hu, AttemptFrames.push, stmtAnswers]
   | batch pre =>
     have := hp pre rfl
     cases rounds with
@@ -426,5 +449,30 @@ example :
       = .finished (.stopped .brokenConnection) ∧
     (runTimed .default false .quorum [.always, .always, .always] os (fun _ => 40) 39).attempts.length = 1 := by
   decide
+
+-- a QUERY WITH values (PREPARE + EXECUTE in every attempt): the per-attempt PREPARE fails with Overloaded - nothing
+-- of the statement is sent and a non-idempotent request stops; PREPARE ok, EXECUTE answered UNPREPARED, the
+-- re-prepare returns another id: RepreparedIdChanged, not re-sent
+example :
+    let unp : Outcome := .fail (.dbError .unprepared)
+    let w1 := runWire .default false .quorum [.always, .always] .queryValues
+      (fun _ => ⟨fun _ => .ok, fun _ => .err (.dbError .overloaded), fun _ => true⟩) 3
+    let w2 := runWire .default false .quorum [.always, .always] .queryValues
+      (fun _ => ⟨fun _ => unp, fun j => if j = 0 then .ok else .idChanged, fun _ => true⟩) 3
+    w1.stmtAnswers = [] ∧ w1.trace.final = .stopped (.dbError .overloaded) ∧ w1.frames.map List.length = [1] ∧
+    w2.stmtAnswers = [unp] ∧ w2.trace.final = .stopped .repreparedIdChanged ∧ w2.frames.map List.length = [3] := by
+  decide
+
+/-! ### request timeout around several speculative fibers
+
+`tokio::time::timeout` wraps the whole `runner` (`execution.rs:486-502`), speculative fibers included: at the
+deadline all fibers are dropped, i.e. the schedule simply ends there.  `attempts_bounded_speculative` holds for
+every schedule, hence for every schedule cut at any point: -/
+theorem attempts_bounded_speculative_under_timeout (pol : Policy) (idem : Bool) (cl0 : Consistency)
+    (plan : List Target) (outcomes : Nat → Nat → Outcome) (nFibers : Nat) (sched : List Nat) (cut : Nat) :
+    totalAttempts (runSched (builtin pol) idem outcomes (sched.take cut)
+        (List.replicate nFibers (Fiber.fresh cl0), ⟨plan, 0⟩)).1
+      ≤ plan.length + nFibers * sameTargetBound pol :=
+  attempts_bounded_speculative pol idem cl0 plan outcomes nFibers (sched.take cut)
 
 end ScyllaVerif.Props.C06Ext
